@@ -96,6 +96,11 @@ func buildAccessories() []*accessory.Accessory {
 	we := characteristic.NewString("F0000006-0000-1000-8000-0026BB765291")
 	we.Perms = []string{characteristic.PermWrite, characteristic.PermEvents}
 	svc.AddCharacteristic(we.Characteristic)
+	// a string anybody may read, write and observe (a configured name): its text travels inside event bodies
+	nm := characteristic.NewString("F0000007-0000-1000-8000-0026BB765291")
+	nm.Perms = []string{characteristic.PermRead, characteristic.PermWrite, characteristic.PermEvents}
+	nm.Value = "name"
+	svc.AddCharacteristic(nm.Characteristic)
 	sw.AddService(svc)
 	return []*accessory.Accessory{br.Accessory, lb.Accessory, th.Accessory, sw.Accessory}
 }
